@@ -563,4 +563,540 @@ theorem measure_step {cfg : Cfg} {s s' : BF} {a : Act} (h : s.step cfg a = some 
     have : s.sh.pipe.cancelled = false := by simpa using hc
     simp only [BF.μ, shμ, Shared.setPipe, this, cancPot]; omega
 
+/-! ### progress (deadlock freedom) invariants -/
+
+theorem sum_set_split (f : WState → Nat) (ws : List WState) (i : Nat) (w w' : WState) (h : ws[i]? = some w) :
+    ∃ k, (ws.map f).sum = k + f w ∧ ((ws.set i w').map f).sum = k + f w' := by
+  induction ws generalizing i with
+  | nil => simp at h
+  | cons x xs ih =>
+    cases i with
+    | zero =>
+      simp only [List.getElem?_cons_zero, Option.some.injEq] at h; subst h
+      exact ⟨(xs.map f).sum, by simp only [List.set_cons_zero, List.map_cons, List.sum_cons]; omega⟩
+    | succ j =>
+      simp only [List.getElem?_cons_succ] at h
+      obtain ⟨k, h1, h2⟩ := ih j h
+      exact ⟨f x + k, by simp only [List.set_cons_succ, List.map_cons, List.sum_cons]; omega⟩
+
+def needsCancel : CState → Bool
+  | .join _ => true
+  | .ret _ => true
+  | _ => false
+
+/-- invariants needed for progress; `ex` is where the repair (`cfg.fixed`) is used -/
+structure Inv2 (cfg : Cfg) (s : BF) : Prop where
+  ph : s.sh.pipe.phase = .loop ∨ (s.sh.pipe.phase = .done ∧ s.sh.cancelled = true)
+  du : 0 < s.sh.dropUnits → s.sh.cancelled = true
+  ex : cfg.fixed = true → 0 < exitedSum s.ws → s.sh.cancelled = true
+  jn : needsCancel s.coord = true → s.sh.cancelled = true
+  j : s.coord = .wait → s.sh.cancelled = true ∨ s.sh.count ≠ 0 ∨ 0 < s.sh.compl ∨ 0 < decdSum s.ws
+  errc : s.sh.err = true → s.sh.cancelled = true
+
+theorem WStep.dl {cfg sh w a sh' w'} (h : WStep cfg sh w a sh' w') :
+    sh'.pipe.phase = sh.pipe.phase ∧
+    (sh'.dropUnits = sh.dropUnits ∨ sh'.cancelled = true) ∧
+    (isExitedN w' ≤ isExitedN w ∨ sh'.cancelled = true ∨ cfg.fixed = false) ∧
+    (sh'.err = sh.err ∨ sh'.cancelled = true) ∧
+    (∀ k : Nat, 0 ≤ sh.count →
+      (sh.cancelled = true ∨ sh.count ≠ 0 ∨ 0 < sh.compl ∨ 0 < k + isDecd w) →
+      (sh'.cancelled = true ∨ sh'.count ≠ 0 ∨ 0 < sh'.compl ∨ 0 < k + isDecd w')) := by
+  cases h <;> simp [Shared.setPipe, Shared.cancelled, isExitedN, isDecd] at * <;> try omega
+  all_goals first
+    | (rename_i hc; exact ⟨Or.inl hc, fun _ _ => Or.inl hc⟩)
+    | (rename_i hc; exact Or.inl hc)
+    | (rename_i hc; exact Or.inr hc)
+
+theorem inv2_init (cfg : Cfg) : Inv2 cfg (BF.init cfg) := by
+  refine ⟨Or.inl rfl, ?_, ?_, (fun h => by cases h), (fun h => by cases h), (fun h => by cases h)⟩
+  · intro h; simp [BF.init] at h
+  · intro _ h
+    have := sum_replicate_zero isExitedN cfg.n .idle rfl
+    simp only [BF.init, exitedSum, this] at h; omega
+
+theorem inv2_step_w {cfg : Cfg} {s : BF} {i : Nat} {w w' : WState} {a : WAct} {sh' : Shared}
+    (hi : Inv cfg s) (h2 : Inv2 cfg s) (hw : s.ws[i]? = some w)
+    (hs : WStep cfg s.sh w a sh' w') : Inv2 cfg { s with sh := sh', ws := s.ws.set i w' } := by
+  obtain ⟨d1, d2, d3, d4, d5⟩ := hs.dl
+  have hm := hs.cancelled_mono
+  refine ⟨?_, ?_, ?_, ?_, ?_, ?_⟩
+  · show sh'.pipe.phase = .loop ∨ (sh'.pipe.phase = .done ∧ sh'.cancelled = true)
+    rw [d1]
+    rcases h2.ph with h | ⟨h, hc⟩
+    · exact Or.inl h
+    · exact Or.inr ⟨h, hm hc⟩
+  · show 0 < sh'.dropUnits → sh'.cancelled = true
+    intro h
+    rcases d2 with d | d
+    · rw [d] at h; exact hm (h2.du h)
+    · exact d
+  · show cfg.fixed = true → 0 < exitedSum (s.ws.set i w') → sh'.cancelled = true
+    intro hf h
+    obtain ⟨k, e1, e2⟩ := sum_set_split isExitedN s.ws i w w' hw
+    rcases d3 with d | d | d
+    · apply hm; apply h2.ex hf; simp only [exitedSum] at *; omega
+    · exact d
+    · rw [hf] at d; cases d
+  · show needsCancel s.coord = true → sh'.cancelled = true
+    exact fun h => hm (h2.jn h)
+  · show s.coord = .wait → sh'.cancelled = true ∨ sh'.count ≠ 0 ∨ 0 < sh'.compl ∨ 0 < decdSum (s.ws.set i w')
+    intro hc
+    obtain ⟨k, e1, e2⟩ := sum_set_split isDecd s.ws i w w' hw
+    have h0 : 0 ≤ s.sh.count := by rw [hi.cnt]; exact Int.natCast_nonneg _
+    have := d5 k h0 (by have := h2.j hc; simp only [decdSum] at this; rw [e1] at this; exact this)
+    simp only [decdSum]; rw [e2]; exact this
+  · show sh'.err = true → sh'.cancelled = true
+    intro h
+    rcases d4 with d | d
+    · rw [d] at h; exact hm (h2.errc h)
+    · exact d
+
+theorem inv2_step {cfg : Cfg} {s s' : BF} {a : Act} (hi : Inv cfg s) (h2 : Inv2 cfg s)
+    (h : s.step cfg a = some s') : Inv2 cfg s' := by
+  have hi' := inv_step hi h
+  cases a with
+  | w i a =>
+    obtain ⟨w, sh', w', hw, hs, rfl⟩ := step_w_inv h
+    exact inv2_step_w hi h2 hw hs
+  | cInc =>
+    simp only [BF.step] at h
+    split at h <;> try cases h
+    exact ⟨h2.ph, h2.du, h2.ex, (fun h => by cases h), (fun h => by cases h), h2.errc⟩
+  | cSubmitRoot =>
+    simp only [BF.step] at h
+    split at h <;> try cases h
+    next p' hc hs =>
+    obtain ⟨hp, rfl⟩ := Pipe.step_recv hs
+    refine ⟨h2.ph, h2.du, h2.ex, (fun h => by cases h), fun _ => ?_, h2.errc⟩
+    right; left
+    have := hi'.cnt
+    simp only [Shared.setPipe, List.length_append, List.length_singleton] at this
+    show s.sh.count ≠ 0
+    have e : s.sh.count = _ := this
+    rw [e]; push_cast; omega
+  | cSubmitRootCancel =>
+    simp only [BF.step] at h
+    split at h <;> try cases h
+    next hc =>
+    split at h <;> try cases h
+    next hcan =>
+    exact ⟨h2.ph, fun _ => hcan, h2.ex, (fun h => by cases h), (fun h => by cases h), h2.errc⟩
+  | cRecv =>
+    simp only [BF.step] at h
+    split at h <;> try cases h
+    next hc =>
+    split at h <;> try cases h
+    exact ⟨h2.ph, h2.du, h2.ex, (fun h => by cases h), (fun h => by cases h), h2.errc⟩
+  | cRecvCancel =>
+    simp only [BF.step] at h
+    split at h <;> try cases h
+    next hc =>
+    split at h <;> try cases h
+    exact ⟨h2.ph, h2.du, h2.ex, (fun h => by cases h), (fun h => by cases h), h2.errc⟩
+  | cLoad =>
+    simp only [BF.step] at h
+    split at h <;> try cases h
+    next hc =>
+    split at h <;> cases h
+    · exact ⟨h2.ph, h2.du, h2.ex, (fun h => by cases h), (fun h => by cases h), h2.errc⟩
+    · next hne =>
+      exact ⟨h2.ph, h2.du, h2.ex, (fun h => by cases h), fun _ => Or.inr (Or.inl hne), h2.errc⟩
+  | cCancel =>
+    simp only [BF.step] at h
+    split at h <;> try cases h
+    next z hc =>
+    refine ⟨?_, fun _ => rfl, fun _ _ => rfl, fun _ => rfl, (fun h => by cases h), fun _ => rfl⟩
+    rcases h2.ph with h | ⟨h, _⟩
+    · exact Or.inl h
+    · exact Or.inr ⟨h, rfl⟩
+  | cReturn =>
+    simp only [BF.step] at h
+    split at h <;> try cases h
+    next z hc =>
+    split at h <;> try cases h
+    have hcan : s.sh.cancelled = true := h2.jn (by rw [hc]; rfl)
+    exact ⟨h2.ph, h2.du, h2.ex, fun _ => hcan, (fun h => by cases h), h2.errc⟩
+  | pipeExit =>
+    simp only [BF.step] at h
+    split at h <;> try cases h
+    next p' hs =>
+    obtain ⟨hcan, _, rfl⟩ := Pipe.step_observe hs
+    exact ⟨Or.inr ⟨rfl, hcan⟩, h2.du, h2.ex, h2.jn, h2.j, h2.errc⟩
+  | cancel =>
+    simp only [BF.step] at h
+    split at h <;> try cases h
+    refine ⟨?_, fun _ => rfl, fun _ _ => rfl, fun _ => rfl, fun _ => Or.inl rfl, fun _ => rfl⟩
+    rcases h2.ph with h | ⟨h, _⟩
+    · exact Or.inl h
+    · exact Or.inr ⟨h, rfl⟩
+
+theorem reach_inv2 {cfg : Cfg} {s : BF} (h : BF.Reach cfg s) : Inv2 cfg s := by
+  induction h with
+  | init => exact inv2_init cfg
+  | step hr hs ih => exact inv2_step (reach_inv hr) ih hs
+
+/-! ### progress: in every reachable state of the repaired protocol that has not returned, some
+non-environment action is enabled -/
+
+theorem step_w_enabled {cfg : Cfg} {s : BF} {i : Nat} {w w' : WState} {a : WAct} {sh' : Shared}
+    (hw : s.ws[i]? = some w) (hs : wstep cfg s.sh w a = some (sh', w')) :
+    ∃ a' s', Act.isEnv a' = false ∧ s.step cfg a' = some s' :=
+  ⟨.w i a, { s with sh := sh', ws := s.ws.set i w' }, rfl, by simp [BF.step, hw, hs]⟩
+
+theorem le_sum_of_mem (f : WState → Nat) (ws : List WState) (i : Nat) (w : WState) (h : ws[i]? = some w) :
+    f w ≤ (ws.map f).sum := by
+  obtain ⟨k, e, _⟩ := sum_set_split f ws i w w h
+  omega
+
+theorem step_w_enabled' {cfg : Cfg} {s : BF} {i : Nat} {w : WState} {a : WAct}
+    (hw : s.ws[i]? = some w) (hs : (wstep cfg s.sh w a).isSome = true) :
+    ∃ a' s', Act.isEnv a' = false ∧ s.step cfg a' = some s' := by
+  obtain ⟨⟨sh', w'⟩, h⟩ := Option.isSome_iff_exists.mp hs
+  exact step_w_enabled hw h
+
+/-- a worker that has not returned can always move once the context is cancelled -/
+theorem live_enabled_cancelled (cfg : Cfg) (sh : Shared) (w : WState) (hc : sh.cancelled = true)
+    (hw : w.isExited = false) : ∃ a, (wstep cfg sh w a).isSome = true := by
+  cases w with
+  | idle => exact ⟨.exitIdle, by simp [wstep, hc]⟩
+  | got s => exact ⟨.driverOk, rfl⟩
+  | sub rest =>
+    cases rest with
+    | nil => exact ⟨.dec, rfl⟩
+    | cons c r => exact ⟨.inc, rfl⟩
+  | incd c rest => exact ⟨.submitDrop, by simp [wstep, hc]⟩
+  | decd => exact ⟨.complCancel, by simp [wstep, hc]⟩
+  | failed => exact ⟨.fail, rfl⟩
+  | failedSilent =>
+    cases hf : cfg.fixed
+    · exact ⟨.failSilent, by simp [wstep, hf]⟩
+    · exact ⟨.failSilent, by simp [wstep, hf]⟩
+  | exited => cases hw
+  | exitedFailed => cases hw
+
+/-- a worker holding counter units can always move while the pipe goroutine is in its main loop -/
+theorem busy_enabled (cfg : Cfg) (sh : Shared) (w : WState) (hp : sh.pipe.phase = .loop)
+    (hw : 0 < wt w) (hx : isExitedN w = 0) : ∃ a, (wstep cfg sh w a).isSome = true := by
+  cases w with
+  | idle => simp [wt] at hw
+  | got s => exact ⟨.driverOk, rfl⟩
+  | sub rest =>
+    cases rest with
+    | nil => exact ⟨.dec, rfl⟩
+    | cons c r => exact ⟨.inc, rfl⟩
+  | incd c rest => exact ⟨.submit, by simp [wstep, Pipe.step, hp]⟩
+  | decd => simp [wt] at hw
+  | failed => exact ⟨.fail, rfl⟩
+  | failedSilent =>
+    cases hf : cfg.fixed
+    · exact ⟨.failSilent, by simp [wstep, hf]⟩
+    · exact ⟨.failSilent, by simp [wstep, hf]⟩
+  | exited => simp [wt] at hw
+  | exitedFailed => simp [isExitedN] at hx
+
+theorem progress {cfg : Cfg} {s : BF} (hn : 1 ≤ cfg.n) (hf : cfg.fixed = true) (hi : Inv cfg s) (h2 : Inv2 cfg s)
+    (hnr : ∀ z, s.coord ≠ .ret z) : ∃ a s', Act.isEnv a = false ∧ s.step cfg a = some s' := by
+  cases hc : s.coord with
+  | c0 => exact ⟨.cInc, _, rfl, by simp [BF.step, hc]; rfl⟩
+  | c1 =>
+    rcases h2.ph with hp | ⟨hp, hcan⟩
+    · exact ⟨.cSubmitRoot, _, rfl, by simp [BF.step, hc, Pipe.step, hp]; rfl⟩
+    · exact ⟨.cSubmitRootCancel, _, rfl, by simp [BF.step, hc, hcan]; rfl⟩
+  | load =>
+    by_cases h0 : s.sh.count = 0
+    · exact ⟨.cLoad, _, rfl, by simp [BF.step, hc, h0]; rfl⟩
+    · exact ⟨.cLoad, _, rfl, by simp [BF.step, hc, h0]; rfl⟩
+  | brk z => exact ⟨.cCancel, _, rfl, by simp [BF.step, hc]; rfl⟩
+  | ret z => exact absurd hc (hnr z)
+  | join z =>
+    have hcan : s.sh.cancelled = true := h2.jn (by rw [hc]; rfl)
+    by_cases hall : s.ws.all WState.isExited = true
+    · exact ⟨.cReturn, _, rfl, by simp only [BF.step, hc, hall]; rfl⟩
+    · have : ∃ w ∈ s.ws, w.isExited = false := by
+        simp only [List.all_eq_true, not_forall] at hall
+        obtain ⟨w, hm, hw⟩ := hall
+        exact ⟨w, hm, by simpa using hw⟩
+      obtain ⟨w, hm, hw⟩ := this
+      obtain ⟨i, hi'⟩ := List.getElem?_of_mem hm
+      obtain ⟨a, hs⟩ := live_enabled_cancelled cfg s.sh w hcan hw
+      exact step_w_enabled' hi' hs
+  | wait =>
+    by_cases hcp : 0 < s.sh.compl
+    · exact ⟨.cRecv, _, rfl, by simp [BF.step, hc, hcp]; rfl⟩
+    by_cases hcan : s.sh.cancelled = true
+    · exact ⟨.cRecvCancel, _, rfl, by simp [BF.step, hc, hcan]; rfl⟩
+    have hp : s.sh.pipe.phase = .loop := by
+      rcases h2.ph with hp | ⟨_, h⟩
+      · exact hp
+      · exact absurd h hcan
+    have hdecd : ∀ (i : Nat) (w : WState), s.ws[i]? = some w → 0 < isDecd w → ∃ a s', Act.isEnv a = false ∧ s.step cfg a = some s' := by
+      intro i w hw hd
+      cases w <;> simp [isDecd] at hd
+      exact step_w_enabled' (a := .compl) hw (by simp [wstep]; omega)
+    rcases h2.j hc with h | h | h | h
+    · exact absurd h hcan
+    · -- the counter is non-zero: someone holds work, or the pipe does
+      have hcnt := hi.cnt
+      rw [hc] at hcnt
+      simp only [cwt] at hcnt
+      have hdu : s.sh.dropUnits = 0 := by
+        rcases Nat.eq_zero_or_pos s.sh.dropUnits with h' | h'
+        · exact h'
+        · exact absurd (h2.du h') hcan
+      by_cases hwt : 0 < wtSum s.ws
+      · obtain ⟨i, w, hw, hpos⟩ := exists_of_sum_pos wt s.ws hwt
+        have hx : isExitedN w = 0 := by
+          rcases Nat.eq_zero_or_pos (isExitedN w) with h' | h'
+          · exact h'
+          · exact absurd (h2.ex hf (sum_pos_of_mem isExitedN s.ws i w hw h')) hcan
+        obtain ⟨a, hs⟩ := busy_enabled cfg s.sh w hp hpos hx
+        exact step_w_enabled' hw hs
+      · have hbuf : s.sh.pipe.buf ≠ [] := by
+          intro hb; rw [hb] at hcnt; apply h; rw [hcnt]; simp; omega
+        have hlen : 0 < s.ws.length := by rw [hi.len]; omega
+        have hw0 : s.ws[0]? = some (s.ws[0]'hlen) := by simp
+        have hwt0 : wt (s.ws[0]'hlen) = 0 := by
+          have := le_sum_of_mem wt s.ws 0 _ hw0
+          simp only [wtSum] at hwt; omega
+        have hx0 : isExitedN (s.ws[0]'hlen) = 0 := by
+          rcases Nat.eq_zero_or_pos (isExitedN (s.ws[0]'hlen)) with h' | h'
+          · exact h'
+          · exact absurd (h2.ex hf (sum_pos_of_mem isExitedN s.ws 0 _ hw0 h')) hcan
+        generalize s.ws[0]'hlen = w0 at hw0 hwt0 hx0
+        cases w0 <;> simp [wt, isExitedN] at hwt0 hx0
+        · -- idle: receives the pipe's front value
+          cases hb : s.sh.pipe.buf with
+          | nil => exact absurd hb hbuf
+          | cons v rest =>
+            exact step_w_enabled' (a := .recv) hw0 (by simp [wstep, Pipe.step, hp, hb])
+        · exact hdecd 0 _ hw0 (by simp [isDecd])
+    · exact absurd h hcp
+    · obtain ⟨i, w, hw, hpos⟩ := exists_of_sum_pos isDecd s.ws h
+      exact hdecd i w hw hpos
+
+/-! ### once the coordinator has seen zero, the counter stays zero -/
+
+def viaZero : CState → Bool
+  | .brk true => true
+  | .join true => true
+  | .ret true => true
+  | _ => false
+
+theorem WStep.count_of_wt0 {cfg sh w a sh' w'} (h : WStep cfg sh w a sh' w') (h0 : wt w = 0) : sh'.count = sh.count := by
+  cases h <;> simp [wt, Shared.setPipe] at h0 ⊢
+
+theorem invz_step {cfg : Cfg} {s s' : BF} {a : Act} (hi : Inv cfg s)
+    (hz : viaZero s.coord = true → s.sh.count = 0) (h : s.step cfg a = some s') :
+    viaZero s'.coord = true → s'.sh.count = 0 := by
+  cases a with
+  | w i a =>
+    obtain ⟨w, sh', w', hw, hs, rfl⟩ := step_w_inv h
+    intro hv
+    have h0 := hz hv
+    have hc := hi.cnt
+    rw [h0] at hc
+    have hle := le_sum_of_mem wt s.ws i w hw
+    have : wt w = 0 := by simp only [wtSum] at hc; omega
+    show sh'.count = 0
+    rw [hs.count_of_wt0 this]; exact h0
+  | cInc => simp only [BF.step] at h; split at h <;> try cases h
+            intro hv; cases hv
+  | cSubmitRoot => simp only [BF.step] at h; split at h <;> try cases h
+                   intro hv; cases hv
+  | cSubmitRootCancel =>
+    simp only [BF.step] at h; split at h <;> try cases h
+    split at h <;> try cases h
+    intro hv; cases hv
+  | cRecv =>
+    simp only [BF.step] at h; split at h <;> try cases h
+    split at h <;> try cases h
+    intro hv; cases hv
+  | cRecvCancel =>
+    simp only [BF.step] at h; split at h <;> try cases h
+    split at h <;> try cases h
+    intro hv; cases hv
+  | cLoad =>
+    simp only [BF.step] at h; split at h <;> try cases h
+    split at h <;> cases h
+    · next h0 => exact fun _ => h0
+    · intro hv; cases hv
+  | cCancel =>
+    simp only [BF.step] at h; split at h <;> try cases h
+    next z hc =>
+    intro hv
+    cases z
+    · cases hv
+    · exact hz (by rw [hc]; rfl)
+  | cReturn =>
+    simp only [BF.step] at h; split at h <;> try cases h
+    next z hc =>
+    split at h <;> try cases h
+    intro hv
+    cases z
+    · cases hv
+    · exact hz (by rw [hc]; rfl)
+  | pipeExit =>
+    simp only [BF.step] at h; split at h <;> try cases h
+    exact hz
+  | cancel =>
+    simp only [BF.step] at h; split at h <;> try cases h
+    exact hz
+
+theorem reach_invz {cfg : Cfg} {s : BF} (h : BF.Reach cfg s) : viaZero s.coord = true → s.sh.count = 0 := by
+  induction h with
+  | init => intro hv; cases hv
+  | step hr hs ih => exact invz_step (reach_inv hr) ih hs
+
+theorem pend_of_wt0 (w : WState) (h : wt w = 0) : pend w = [] := by cases w <;> simp [wt, pend] at h ⊢
+
+theorem pendSum_of_wtSum0 (ws : List WState) (h : wtSum ws = 0) : pendSum ws = 0 := by
+  induction ws with
+  | nil => rfl
+  | cons x xs ih =>
+    simp only [wtSum, pendSum, List.map_cons, List.sum_cons] at *
+    have hx : wt x = 0 := by omega
+    rw [pend_of_wt0 x hx, ih (by omega)]; simp
+
+/-- what `descentCount = 0` means in any reachable state: nothing is queued, held or lost, and the
+driver has been called on exactly the nodes of the tree -/
+theorem zero_means_done {cfg : Cfg} {s : BF} (hi : Inv cfg s) (hne : s.coord ≠ .c0) (h0 : s.sh.count = 0) :
+    s.sh.pipe.buf = [] ∧ wtSum s.ws = 0 ∧ s.sh.dropUnits = 0 ∧ s.sh.lost = [] ∧
+    s.sh.expanded.Perm cfg.root.nodes := by
+  have hc := hi.cnt
+  rw [h0] at hc
+  have hb : s.sh.pipe.buf = [] := List.length_eq_zero_iff.mp (by omega)
+  have hw : wtSum s.ws = 0 := by omega
+  have hd : s.sh.dropUnits = 0 := by omega
+  have hcw : cwt s.coord = 0 := by omega
+  have hl : s.sh.lost = [] := by
+    by_contra hne
+    rcases hi.lostc hne with h | h
+    · omega
+    · have := failSum_le_wtSum s.ws; omega
+  refine ⟨hb, hw, hd, hl, ?_⟩
+  have ht := hi.tree
+  have hcp : cpend cfg.root s.coord = [] ∨ s.coord = .c0 := by
+    cases hcc : s.coord <;> simp [cpend, cwt, hcc] at hcw ⊢
+  rcases hcp with hcp | hcp
+  · rw [hb, hl, pendSum_of_wtSum0 s.ws hw, hcp] at ht
+    simp only [nm_nil, add_zero] at ht
+    exact (Multiset.coe_eq_coe.mp ht).symm
+  · exact absurd hcp hne
+
+/-! ### the code as it is, along schedules in which the driver never returns a swallowed error -/
+
+def Cfg.repaired (cfg : Cfg) : Cfg := { cfg with fixed := true }
+
+/-- reachable without the action "driver returns an error that `errors.Is` context.Canceled /
+ErrContextTimedOut while the traversal context is live" -/
+inductive BF.ReachNS (cfg : Cfg) : BF → Prop where
+  | init : BF.ReachNS cfg (BF.init cfg)
+  | step {s s' : BF} {a : Act} : BF.ReachNS cfg s → (∀ i, a ≠ .w i .driverErrSilent) →
+      s.step cfg a = some s' → BF.ReachNS cfg s'
+
+def isFS : WState → Nat
+  | .failedSilent => 1
+  | _ => 0
+
+theorem WStep.fs {cfg sh w a sh' w'} (h : WStep cfg sh w a sh' w') (ha : a ≠ .driverErrSilent) :
+    isFS w' ≤ isFS w := by
+  cases h <;> simp [isFS] at ha ⊢
+
+theorem wstep_repaired (cfg : Cfg) (sh : Shared) (w : WState) (a : WAct) (hw : isFS w = 0) :
+    wstep cfg.repaired sh w a = wstep cfg sh w a := by
+  cases w <;> cases a <;> first
+    | rfl
+    | (rename_i r; cases r <;> rfl)
+    | (simp [isFS] at hw)
+
+theorem step_repaired (cfg : Cfg) (s : BF) (a : Act) (h : (s.ws.map isFS).sum = 0) :
+    s.step cfg.repaired a = s.step cfg a := by
+  cases a with
+  | w i a =>
+    simp only [BF.step]
+    cases hw : s.ws[i]? with
+    | none => rfl
+    | some w =>
+      have := le_sum_of_mem isFS s.ws i w hw
+      simp only []
+      rw [wstep_repaired cfg s.sh w a (by omega)]
+  | _ => rfl
+
+theorem fs_step {cfg : Cfg} {s s' : BF} {a : Act} (hns : ∀ i, a ≠ .w i .driverErrSilent)
+    (h0 : (s.ws.map isFS).sum = 0) (h : s.step cfg a = some s') : (s'.ws.map isFS).sum = 0 := by
+  cases a with
+  | w i a =>
+    obtain ⟨w, sh', w', hw, hs, rfl⟩ := step_w_inv h
+    have h1 := hs.fs (fun e => hns i (by rw [e]))
+    obtain ⟨k, e1, e2⟩ := sum_set_split isFS s.ws i w w' hw
+    show ((s.ws.set i w').map isFS).sum = 0
+    omega
+  | cInc => simp only [BF.step] at h; split at h <;> try cases h
+            exact h0
+  | cSubmitRoot => simp only [BF.step] at h; split at h <;> try cases h
+                   exact h0
+  | cSubmitRootCancel =>
+    simp only [BF.step] at h; split at h <;> try cases h
+    split at h <;> try cases h
+    exact h0
+  | cRecv =>
+    simp only [BF.step] at h; split at h <;> try cases h
+    split at h <;> try cases h
+    exact h0
+  | cRecvCancel =>
+    simp only [BF.step] at h; split at h <;> try cases h
+    split at h <;> try cases h
+    exact h0
+  | cLoad =>
+    simp only [BF.step] at h; split at h <;> try cases h
+    split at h <;> cases h <;> exact h0
+  | cCancel => simp only [BF.step] at h; split at h <;> try cases h
+               exact h0
+  | cReturn =>
+    simp only [BF.step] at h; split at h <;> try cases h
+    split at h <;> try cases h
+    exact h0
+  | pipeExit => simp only [BF.step] at h; split at h <;> try cases h
+                exact h0
+  | cancel => simp only [BF.step] at h; split at h <;> try cases h
+              exact h0
+
+theorem reachNS_repaired {cfg : Cfg} {s : BF} (h : BF.ReachNS cfg s) :
+    (s.ws.map isFS).sum = 0 ∧ BF.Reach cfg.repaired s := by
+  induction h with
+  | init => exact ⟨sum_replicate_zero isFS cfg.n .idle rfl, BF.Reach.init⟩
+  | @step s s' a hr hns hs ih =>
+    refine ⟨fs_step hns ih.1 hs, BF.Reach.step (a := a) ih.2 ?_⟩
+    rw [step_repaired _ _ _ ih.1]; exact hs
+
+theorem reachNS_reach {cfg : Cfg} {s : BF} (h : BF.ReachNS cfg s) : BF.Reach cfg s := by
+  induction h with
+  | init => exact BF.Reach.init
+  | step _ _ hs ih => exact BF.Reach.step ih hs
+
+/-- runs: the length of any run is bounded by the measure of its start -/
+theorem run_length_le {cfg : Cfg} {s s' : BF} {as : List Act} (h : BF.run cfg s as = some s') :
+    as.length + s'.μ cfg ≤ s.μ cfg := by
+  induction as generalizing s with
+  | nil => cases h; simp
+  | cons a as ih =>
+    unfold BF.run at h
+    cases hs : s.step cfg a with
+    | none => rw [hs] at h; cases h
+    | some q =>
+      rw [hs] at h
+      have := ih h
+      have := measure_step hs
+      simp only [List.length_cons]; omega
+
+theorem reach_run {cfg : Cfg} {s s' : BF} {as : List Act} (hr : BF.Reach cfg s) (h : BF.run cfg s as = some s') :
+    BF.Reach cfg s' := by
+  induction as generalizing s with
+  | nil => cases h; exact hr
+  | cons a as ih =>
+    unfold BF.run at h
+    cases hs : s.step cfg a with
+    | none => rw [hs] at h; cases h
+    | some q => rw [hs] at h; exact ih (BF.Reach.step hr hs) h
+
 end Dawgs.C17
